@@ -18,6 +18,10 @@ canonicalised arguments; the physical constants R, F (kJ/V/eq and C/mol), eps0, 
                recovered from the reader: aqueous 0, H+, H2O, e-, solids, exchange and surface species): it must accept aqueous
                species, H+ and e- (redox-rewritten equations carry e-) and nothing that is not dissolved (H2O, z = 0, may be
                either way)
+  C20.sites    "the surface species of each site type sum to the defined sites": the defined amount reaches the site-balance unknown
+               through setup_surface on a full build and through the master loop of quick_setup when the model is reused; the
+               class test with which that loop skips masters, evaluated over the finite domain of species classes (codes
+               recovered from the readers), may skip the potential masters but not surface-site, exchange or aqueous masters
 Not decided: site balance and mass action of every surface species (properties of the numerical solution), the diffuse-layer
 integration (calc_all_g / Donnan), read-out values.
 """
@@ -155,6 +159,7 @@ def run(P, R, tier):
     R.undecided += ["site balance and mass action of every surface species at the reported solution (numerical)",
                     "diffuse-layer integration (calc_all_g, Donnan), ion excess = surface charge (numerical)"]
     deltaz_rule(P, R)
+    sites_rule(P, R)
     R.rule("C20.psi", "every potential conversion is psi = 2 la ln10 R T/F (DDL, CCM) or psi = -la ln10 R T/F (CD-MUSIC planes), matching the selected model", minimum=12)
     R.rule("C20.sigma", "every charge-density conversion is sigma = q F/(A g) or q = sigma A g/F", minimum=15)
     S = RF.Rat.sym
@@ -364,3 +369,59 @@ def deltaz_rule(P, R):
         R.violation("C20.deltaz", "add_potential_factor", "the charge sum of the electrostatic term accepts {%s}: %s%s - the potential coefficient of a surface species whose rewritten "
                     "equation contains such a reactant is wrong by its charge" % (", ".join(acc), ("it leaves out %s" % ", ".join(sorted(need - set(acc)))) if need - set(acc) else "",
                                                                                    (" it includes %s" % ", ".join(sorted(extra))) if extra else ""), line=site[1], **where)
+
+
+def sites_rule(P, R):
+    R.rule("C20.sites", "quick_setup refreshes the totals of every surface-site master: its class skip does not exclude site, exchange or aqueous masters", minimum=1)
+    codes = {}
+    for q, nm in (("Phreeqc::read_surface_species", "surface site"), ("Phreeqc::read_exchange_species", "exchange")):
+        for f in P.fns_named(q):
+            for x in T.walk(f["body"]):
+                if x[0] == "Bin" and x[2] == "=":
+                    t = T.strip_casts(x[3])
+                    if t[0] == "Member" and t[2] == "species::type" and T.lit_value(x[4]) is not None:
+                        codes.setdefault(nm, T.lit_value(x[4]))
+    if len(codes) != 2:
+        R.anchor_missing("C20.sites", "class codes of surface-site / exchange species not recovered from the readers (%s)" % codes)
+        return
+    codes["aqueous"] = 0
+    f = P.one("Phreeqc::quick_setup")
+    loop = None
+    for x in T.walk(f["body"]):
+        if x[0] == "For" and "master" in T.text(x[3]) and any(w[0] == "Bin" and w[2] == "=" and T.text(w[3]).endswith("unknown.moles") for w in T.walk(x[5])):
+            loop = x
+            break
+    if loop is None:
+        R.anchor_missing("C20.sites", "quick_setup: the master loop that refreshes unknown.moles was not found")
+        return
+    skips = [s_ for s_ in (loop[5][2] if loop[5][0] == "Compound" else [loop[5]]) if T.is_node(s_) and s_[0] == "If" and any(y[0] == "Continue" for y in T.walk(s_[3]))
+             and any(y[0] == "Member" and y[2] == "species::type" for y in T.walk(s_[2]))]
+    if not skips:
+        R.anchor_missing("C20.sites", "quick_setup: class skip of the master loop not found")
+        return
+
+    def ev(n, code):
+        n = T.strip_casts(n)
+        if n[0] == "Bin" and n[2] in ("||", "&&"):
+            a, b = ev(n[3], code), ev(n[4], code)
+            return (a or b) if n[2] == "||" else (a and b)
+        if n[0] == "Un" and n[2] == "!":
+            return not ev(n[3], code)
+        if n[0] == "Bin" and n[2] in ("==", "!=", "<", "<=", ">", ">="):
+            l, r = T.strip_casts(n[3]), T.strip_casts(n[4])
+            if l[0] == "Member" and l[2] == "species::type" and T.lit_value(r) is not None:
+                v = T.lit_value(r)
+                return {"==": code == v, "!=": code != v, "<": code < v, "<=": code <= v, ">": code > v, ">=": code >= v}[n[2]]
+        raise ValueError(T.text(n)[:50])
+    for sk in skips:
+        try:
+            skipped = sorted(nm for nm, c in codes.items() if ev(sk[2], c))
+        except ValueError as e:
+            R.anchor_missing("C20.sites", "quick_setup: class skip not evaluable (%s)" % e)
+            continue
+        if skipped:
+            R.violation("C20.sites", "quick_setup:skip@%d" % sk[1], "the master loop of quick_setup skips %s masters (`%s`): on model reuse their unknowns keep the amounts of the surface / "
+                        "exchanger the model was last built with, so the species no longer sum to the defined sites" % (", ".join(skipped), T.text(sk[2])[:60]),
+                        file=f["file"], line=sk[1], function=f["q"])
+        else:
+            R.ok("C20.sites", "quick_setup:skip@%d" % sk[1], "skips no surface-site, exchange or aqueous master")
